@@ -450,8 +450,12 @@ def gen_ents(r: Rng, comma: bool, nbrush: int):
         if r.chance(0.3):
             e['message'] = r.pick(['a,b', 'x, y, z', 'one,two,three,four', 'tab\there', '1,2,3,4,5,6', 'relay,Trigger,,0,-1,9'])   # never exactly four commas: that is the reader's documented test for an old-style output
         for _ in range(r.randrange(0, 3)):
+            # the separator of the file decides how an output is written, whatever the Output object itself was built with;
+            # with the 0x1B separator a parameter may contain commas
+            params = ['', '1', 'a b'] + ([] if comma else ['Setup(45,32)', 'a,b', ',', '1,2,3,4'])
             e.add_out(Output(r.pick(['OnTrigger', 'OnUser1']), r.pick(['relay', '!self', 'door']), r.pick(['Trigger', 'Kill']),
-                             r.pick(['', '1', 'a b']), f32(r.pick([0.0, 1.0, 0.5, 2.25])), times=r.pick([-1, 1]), comma_sep=comma))
+                             r.pick(params), f32(r.pick([0.0, 1.0, 0.5, 2.25])), times=r.pick([-1, 1]),
+                             comma_sep=comma if r.chance(0.6) else not comma))
         ents.append(e)
     return vmf
 
